@@ -333,6 +333,83 @@ def specs_untouched(ctx, specs, pristine, when):
             pristine[sk] = (copy.deepcopy(S), hash(S))
 
 
+def translated_library_spec(ctx):
+    """the Gemini logical library (vertical_shift and the helper kernels it reaches: get_block, calc_vertical_shifts, move_by_shift) under the
+    stock spec and under a copy of it whose every zone is translated by (+1000, +500): a kernel compiled with / run under the translated
+    spec plays every waypoint of the stock run translated by exactly that offset - each specialised kernel observes only its own spec,
+    also inside the library's own helper kernels, in both compilation orders"""
+    import copy
+    from bloqade.shuttle.arch import ArchSpec
+    from bloqade.shuttle.stdlib.layouts.gemini import logical
+    DX, DY = 1000.0, 500.0
+    G0 = logical.get_spec()
+    L1 = copy.deepcopy(G0.layout)
+    for table in (L1.static_traps, L1.special_grid):
+        for k in list(table):
+            table[k] = table[k].shift(DX, DY)
+    G1 = ArchSpec(layout=L1, float_constants=dict(G0.float_constants), int_constants=dict(G0.int_constants))
+    src = ("@move{DEC}\ndef main():\n    logical.vertical_shift(1, 0, [0, 1])\n    logical.vertical_shift(-1, 1, [1, 2])\n")
+
+    def coords(evs):
+        out = []
+        for e in evs:
+            if e[0] != "play":
+                out.append((e[0],))
+                continue
+            for a in e[1].path:
+                wps = getattr(a, "way_points", None)
+                if wps is None:
+                    out.append((type(a).__name__,))
+                else:
+                    out.append(("W", [(tuple(g.x_positions), tuple(g.y_positions)) for g in wps]))
+        return out
+
+    def shifted(c, dx, dy):
+        return [(t[0], [(tuple(x + dx for x in xs), tuple(y + dy for y in ys)) for xs, ys in t[1]]) if t[0] == "W" else t for t in c]
+
+    def close(a, b):
+        if len(a) != len(b):
+            return False
+        for s, t in zip(a, b):
+            if s[0] != t[0] or (s[0] == "W" and (len(s[1]) != len(t[1]) or any(len(p[0]) != len(q[0]) or len(p[1]) != len(q[1]) or
+                                any(abs(u - v) > 1e-6 for u, v in zip(p[0] + p[1], q[0] + q[1])) for p, q in zip(s[1], t[1])))):
+                return False
+        return True
+    n = 0
+    for order in (("G0", "G1"), ("G1", "G0")):
+        got = {}
+        for name in order:
+            X = {"G0": G0, "G1": G1}[name]
+            for how in ("compiled", "run under"):
+                ctx.evaluations += 1
+                n += 1
+                try:
+                    if how == "compiled":
+                        m = kernels.define(src.replace("{DEC}", "(arch_spec=S)"), S=X, logical=logical)["main"]
+                        st, evs, extra = events.run_events(m, (), X, plain=True)
+                    else:
+                        m = kernels.define(src.replace("{DEC}", ""), logical=logical)["main"]
+                        st, evs, extra = events.run_events(m, (), X)
+                except Exception as e:
+                    st, evs, extra = "err", [], f"{type(e).__name__}: {e}"
+                got[(name, how)] = coords(evs) if st == "ok" else "ERR " + str(extra)[:120]
+        base = got[("G0", "run under")]
+        if isinstance(base, str) or sum(1 for t in base if t[0] == "W") < 2:
+            ctx.obligation("the Gemini library moves run under the stock spec", False, str(base)[:200])
+            continue
+        for (name, how), c in got.items():
+            want = shifted(base, DX, DY) if name == "G1" else base
+            if isinstance(c, str) or not close(c, want):
+                k = "-" if isinstance(c, str) else next((j for j in range(min(len(c), len(want))) if not close(c[j:j + 1], want[j:j + 1])), min(len(c), len(want)))
+                ctx.fail({"kind": "kernel-observes-wrong-spec", "library": "gemini.logical", "how": how, "spec": name},
+                         {"translated_library_spec": True, "order": list(order), "how": how, "spec": name},
+                         f"gemini.logical.vertical_shift {how} the {'translated' if name == 'G1' else 'stock'} spec (compilation order {order}): "
+                         f"action {k} is {str(c if isinstance(c, str) else (c[k] if k < len(c) else '<none>'))[:130]} where the spec means {str(want[k] if not isinstance(c, str) and k < len(want) else '')[:130]}")
+            else:
+                ctx.nt(("translated-library-spec", order, name, how))
+    ctx.count("Gemini library moves under the stock and the translated spec (2 compilation orders x 2 specs x compiled / run under)", n)
+
+
 def run(ctx):
     specs = two_specs()
     pristine = {k: (copy.deepcopy(v), hash(v)) for k, v in specs.items()}
@@ -347,6 +424,7 @@ def run(ctx):
         ctx.obligation("the two specs are distinguishable by the kernels", False)
     specs_untouched(ctx, specs, pristine, "after every kernel was run unspecialised under each spec")
     source_reference(ctx, specs, expect)
+    translated_library_spec(ctx)
     ctx.rule = ("histories over 3 kernels sharing 4 generated subroutines (spec lookups of all kinds, loops, a device call) and the library's "
                 "move_by_waypoints, 2 specs with the same zone names but different geometry/constants: every order of compiling 2-3 kernels with "
                 "every assignment of specs, interleaved with executions (exhaustive in the thorough tier, sampled in quick); after every step: "
@@ -435,6 +513,17 @@ def store_model(ctx, hists):
 
 
 def replay(data):
+    if data["input"].get("translated_library_spec"):
+        class C:
+            def __init__(s): s.fails, s.evaluations = [], 0
+            def fail(s, sig, rep, what): s.fails.append(what)
+            def nt(s, *a): pass
+            def count(s, *a): pass
+            def obligation(s, n, ok, log=""):
+                if not ok: s.fails.append(n)
+        c = C()
+        translated_library_spec(c)
+        return bool(c.fails), (c.fails or ["the library observes the spec it is compiled with / run under"])[0][:200]
     inp = data["input"]
     specs = two_specs()
 
